@@ -59,15 +59,17 @@ Fixpoint ty_scan (s cur : str) : str :=
   end.
 Definition type_display (raw : str) : str := ty_scan raw raw.
 
-(** [BenchOptions], as far as this group needs it: the [ignore] field.
-    [overwrite]: [self] wins over [other] (benchmark/options.rs:51-72). *)
-Record opts := { o_ignore : option bool }.
+(** [BenchOptions], as far as this group needs it: the [ignore] field, and
+    [sample_count] as a representative of the other per-field options.
+    [overwrite]: [self] wins over [other], field by field (benchmark/options.rs:51-72). *)
+Record opts := { o_ignore : option bool; o_sample_count : option N }.
 
 Definition opt_or {A} (a b : option A) : option A :=
   match a with Some _ => a | None => b end.
 
 Definition opts_overwrite (self other : opts) : opts :=
-  {| o_ignore := opt_or (o_ignore self) (o_ignore other) |}.
+  {| o_ignore := opt_or (o_ignore self) (o_ignore other);
+     o_sample_count := opt_or (o_sample_count self) (o_sample_count other) |}.
 
 Record meta := {
   m_display : str;
@@ -170,3 +172,155 @@ Definition generic_benches (g : group_entry) : list any_entry :=
 (** The entry sequence [run_action] feeds to [from_benches] (divan.rs:101-115). *)
 Definition all_entries (benches : list bench_entry) (groups : list group_entry) : list any_entry :=
   map ABench benches ++ flat_map generic_benches groups.
+
+(** * Abstract benchmark programs and what the attribute macros register for
+    them ([macros/src/lib.rs:84-500], [attr_options.rs:365-395]) — C12. *)
+
+Inductive consts_spec :=
+| CLit (cs : list str)     (* consts = [a, b, c]  (array literal) *)
+| CExt (cs : list str).    (* consts = EXPR       (any other expression; values after evaluation) *)
+
+Record bench_decl := {
+  bd_raw : str;                    (* the function identifier as written ("r#loop" stays raw) *)
+  bd_name : option str;            (* name = "..." *)
+  bd_line : N;
+  bd_col : N;
+  bd_opts : option opts;           (* Some as soon as any option / counter / #[ignore] is present *)
+  bd_args : option (list value);   (* args = ..., evaluated *)
+  bd_types : option (list str);    (* types = [..]: raw type names *)
+  bd_consts : option consts_spec
+}.
+
+Record group_decl := {
+  gd_name : option str;
+  gd_line : N;
+  gd_col : N;
+  gd_opts : option opts
+}.
+
+(** Items of a module: a benchmark function, a module (with or without
+    [#[divan::bench_group]]), or a function body containing further items
+    ([module_path!()] inside a function body is the enclosing module's). *)
+Inductive pitem :=
+| PBench (b : bench_decl)
+| PMod (raw : str) (group : option group_decl) (items : list pitem)
+| PFn (items : list pitem).
+
+Definition display_of (raw : str) (name : option str) : str :=
+  match name with Some n => n | None => strip_raw raw end.
+
+Definition bench_meta (modpath : str) (b : bench_decl) : meta :=
+  {| m_display := display_of (bd_raw b) (bd_name b); m_raw := bd_raw b; m_modpath := modpath;
+     m_line := bd_line b; m_col := bd_col b; m_opts := bd_opts b |}.
+
+Definition group_meta (modpath raw : str) (g : group_decl) : meta :=
+  {| m_display := display_of raw (gd_name g); m_raw := raw; m_modpath := modpath;
+     m_line := gd_line g; m_col := gd_col g; m_opts := gd_opts g |}.
+
+(** [GenericOptions::is_empty]: exclusively [types = []] or [consts = []] (literal). *)
+Definition generic_is_empty (types : option (list str)) (consts : option consts_spec) : bool :=
+  match types, consts with
+  | Some [], None => true
+  | None, Some (CLit []) => true
+  | _, _ => false
+  end.
+
+(** [GenericOptions::types_iter]: the types, or a single [None]. *)
+Definition types_iter (types : option (list str)) : list (option str) :=
+  match types with None => [None] | Some l => map Some l end.
+
+Definition max_extern_count : nat := 20.
+
+(** External consts: 20 candidate entries [CONSTS[if i < COUNT { i } else { 0 }]],
+    truncated to COUNT by [shrink_array]; more than 20 values: the macro's
+    [panic!] at compile time; no value at all: index 0 out of bounds in the
+    constant evaluation. *)
+Definition extern_consts (cs : list str) : res (list str) :=
+  match cs with
+  | [] => Panic OutOfBounds
+  | c0 :: _ =>
+      if (max_extern_count <? length cs)%nat then Panic Other
+      else Ok (firstn (length cs)
+                 (map (fun i => match nth_error cs (if (i <? length cs)%nat then i else O) with
+                                | Some c => c
+                                | None => c0       (* not reachable: the index is in range *)
+                                end)
+                      (seq 0 max_extern_count)))
+  end.
+
+Definition runner_of (owner : N) (args : option (list value)) : runner :=
+  match args with None => RPlain | Some vals => RArgs owner vals end.
+
+(** Number the generic entries of one function row by row from [first]. *)
+Fixpoint number_row (run : runner) (first : N) (kinds : list gkind) : list gen_entry :=
+  match kinds with
+  | [] => []
+  | k :: tl => {| ge_id := first; ge_runner := run; ge_kind := k |} :: number_row run (first + 1) tl
+  end.
+Fixpoint number_rows (run : runner) (first : N) (rows : list (list gkind)) : list (list gen_entry) :=
+  match rows with
+  | [] => []
+  | r :: tl => number_row run first r :: number_rows run (first + N.of_nat (length r)) tl
+  end.
+
+Definition row_count (rows : list (list gkind)) : N := N.of_nat (length (concat rows)).
+
+(** One [#[divan::bench]]: nothing, one [BenchEntry], or one [GroupEntry] with
+    generic entries; [next] is the next free identity. *)
+Definition expand_bench (modpath : str) (next : N) (b : bench_decl)
+  : res (list bench_entry * list group_entry * N) :=
+  if generic_is_empty (bd_types b) (bd_consts b) then Ok ([], [], next)
+  else
+    let m := bench_meta modpath b in
+    let group rows :=
+      let run := runner_of next (bd_args b) in
+      Ok ([], [{| g_id := next; g_meta := m; g_generic := Some (number_rows run (next + 1) rows) |}],
+          next + 1 + row_count rows) in
+    match bd_consts b with
+    | None =>
+        match bd_types b with
+        | None => Ok ([{| b_id := next; b_meta := m; b_runner := runner_of next (bd_args b) |}], [], next + 1)
+        | Some ts => group [map GType ts]
+        end
+    | Some (CLit cs) => group (map (fun t => map (GConst t) cs) (types_iter (bd_types b)))
+    | Some (CExt cs) =>
+        do cs' <- extern_consts cs;
+        group (map (fun t => map (GConst t) cs') (types_iter (bd_types b)))
+    end.
+
+Definition child_modpath (modpath raw : str) : str := modpath ++ s_colons ++ raw.
+
+Fixpoint expand_item (modpath : str) (next : N) (it : pitem) {struct it}
+  : res (list bench_entry * list group_entry * N) :=
+  match it with
+  | PBench b => expand_bench modpath next b
+  | PMod raw g items =>
+      let '(gs0, next0) :=
+        match g with
+        | None => ([], next)
+        | Some gd => ([{| g_id := next; g_meta := group_meta modpath raw gd; g_generic := None |}], next + 1)
+        end in
+      do r <- (fix go (l : list pitem) (next : N) : res (list bench_entry * list group_entry * N) :=
+                 match l with
+                 | [] => Ok ([], [], next)
+                 | x :: tl =>
+                     do r1 <- expand_item (child_modpath modpath raw) next x;
+                     do r2 <- go tl (snd r1);
+                     Ok (fst (fst r1) ++ fst (fst r2), snd (fst r1) ++ snd (fst r2), snd r2)
+                 end) items next0;
+      Ok (fst (fst r), gs0 ++ snd (fst r), snd r)
+  | PFn items =>
+      (fix go (l : list pitem) (next : N) : res (list bench_entry * list group_entry * N) :=
+         match l with
+         | [] => Ok ([], [], next)
+         | x :: tl =>
+             do r1 <- expand_item modpath next x;
+             do r2 <- go tl (snd r1);
+             Ok (fst (fst r1) ++ fst (fst r2), snd (fst r1) ++ snd (fst r2), snd r2)
+         end) items next
+  end.
+
+(** A crate: the items of its root module. *)
+Definition expand (crate : str) (items : list pitem) : res (list bench_entry * list group_entry) :=
+  do r <- expand_item crate 0 (PFn items);
+  Ok (fst (fst r), snd (fst r)).
